@@ -21,6 +21,18 @@ var verifIndependentMenu = []string{
 	"wrapErrors",
 	"ignoreMissing",
 	"output:raw // raw line",
+	"output:file ./my out/conv.gen.go", // (two values: a faulty line, reported for the converter that carries it)
+}
+
+const verifIndependentFaulty = 7
+
+func verifHasFaulty(picks []int) bool {
+	for _, p := range picks {
+		if p == verifIndependentFaulty {
+			return true
+		}
+	}
+	return false
 }
 
 type verifConvSummary struct {
@@ -95,10 +107,15 @@ func VerifHarness_C12_ConvertersIndependent() {
 	if globalPick == 3 {
 		verifReach("unusable-command-line-setting")
 		_, err2 := parseConverter(ctx, raw2, global)
-		verifAssert("unusable-command-line-setting-reported-for-every-converter-that-cannot-take-it", (err1 != nil) == !firstIsInterface && err2 != nil)
+		verifAssert("unusable-command-line-setting-reported-for-every-converter-that-cannot-take-it", (err1 != nil) == (!firstIsInterface || verifHasFaulty(picks1)) && err2 != nil)
 		if err2 != nil {
 			verifAssert("diagnostic-names-the-command-line", VerifC15Contains(err2.Error(), "command line (-g)"))
 		}
+		return
+	}
+	if verifHasFaulty(picks1) {
+		verifReach("faulty-line")
+		verifAssert("faulty-line-of-a-converter-is-reported", err1 != nil)
 		return
 	}
 	verifAssert("first-converter-parsed", err1 == nil && c1 != nil)
@@ -108,6 +125,10 @@ func VerifHarness_C12_ConvertersIndependent() {
 	before := verifSummary(c1)
 	c2, err2 := parseConverter(ctx, raw2, global)
 	verifReach("both-parsed")
+	if verifHasFaulty(picks2) {
+		verifAssert("faulty-line-of-a-converter-is-reported", err2 != nil)
+		return
+	}
 	verifAssert("second-converter-parsed", err2 == nil && c2 != nil)
 	if err2 != nil || c2 == nil {
 		return
